@@ -1,6 +1,6 @@
 /* Array case kind of the container engine (C19).
  * ops:  il:<v> if:<v> ia:<idx>:<v>  rf rl ra:<idx>  at:<idx> first last len
- *       ss:<n> (ares_array_set_size)   fin (anywhere: the case ends with ares_array_finish)
+ *       sort (ares_array_sort, integer order)   ss:<n> (ares_array_set_size)   fin (anywhere: the case ends with ares_array_finish)
  *       a leading '!' on an insert: the allocator refuses every request during that call
  * output: one line "<k> R tok tok ... dump=v,v,v"
  */
@@ -14,6 +14,12 @@ static void arr_destruct(void *p)
 {
   destroyed_val = *(long long *)p;
   destroyed_set = 1;
+}
+
+static int cmp_ll(const void *a, const void *b)
+{
+  long long x = *(const long long *)a, y = *(const long long *)b;
+  return x < y ? -1 : x > y ? 1 : 0;
 }
 
 static void run_arr(long k, char *ops)
@@ -57,6 +63,8 @@ static void run_arr(long k, char *ops)
       printf(" %zu", ares_array_len(arr));
     } else if (sscanf(op, "ss:%lu", &idx) == 1) {
       printf(" %d", (int)ares_array_set_size(arr, idx));
+    } else if (strcmp(op, "sort") == 0) {
+      printf(" %d", (int)ares_array_sort(arr, cmp_ll));
     } else if (strcmp(op, "fin") == 0) {
       fin = 1;
     } else {
